@@ -71,6 +71,7 @@ type c14Env struct {
 	rstTcp  sonic.Conn
 	deadLst sonic.Listener
 	closers []func()
+	all     bool // stream reads and writes use AsyncReadAll / AsyncWriteAll
 }
 
 func (e *c14Env) need(kind string, count int) {
@@ -282,7 +283,11 @@ func (e *c14Env) step(i int) {
 			f, pos = e.regR, &e.regPos
 		}
 		b := make([]byte, 1)
-		f.AsyncRead(b, func(err error, n int) {
+		rd := f.AsyncRead
+		if e.all {
+			rd = f.AsyncReadAll // (the *All forms go through the same limit)
+		}
+		rd(b, func(err error, n int) {
 			e.enter(i)
 			if err != nil || n != 1 || b[0] != genByte(*pos) {
 				e.bad(i, "read completed with err=%v n=%d byte=%#x, inline it would have delivered byte %d = %#x", err, n, b[0], *pos, genByte(*pos))
@@ -301,7 +306,11 @@ func (e *c14Env) step(i int) {
 		default:
 			f = e.regW
 		}
-		f.AsyncWrite([]byte{0x77}, func(err error, n int) {
+		wr := f.AsyncWrite
+		if e.all {
+			wr = f.AsyncWriteAll
+		}
+		wr([]byte{0x77}, func(err error, n int) {
 			e.enter(i)
 			if err != nil || n != 1 {
 				e.bad(i, "write completed with err=%v n=%d, inline it would have written 1 byte", err, n)
@@ -450,6 +459,13 @@ func c14Body(x *engine.X) {
 		engine.HarnessError("NewIO: %v", err)
 	}
 	e := &c14Env{x: x, ioc: ioc, chain: chain, cycle: cyc, calls: make([]int, chain)}
+	for _, k := range cyc {
+		switch c14Kinds[k] {
+		case "conn-read", "fifo-read", "file-read", "conn-write", "fifo-write", "file-write":
+			e.all = true
+		}
+	}
+	e.all = e.all && x.Pick(2, "stream operations: AsyncRead/AsyncWrite | AsyncReadAll/AsyncWriteAll") == 1
 	x.Defer(func() {
 		for _, c := range e.closers {
 			c()
